@@ -341,3 +341,94 @@ pub fn gen_c12(rng: &mut Rng, np: usize) -> Node {
         ),
     )
 }
+
+/// C15: make some results repeat. Rule U (unique function names) gives every call its own content id, so a peer's
+/// result *multiset* never holds a content id twice; here calls of one peer that have the same literal arguments
+/// (and bind a scalar or append to a stream: results nobody binds are not signed) are given one shared function name, which makes their results
+/// (value, tetraplet, argument hash - hence the aggregate's content id) equal.
+pub fn alias_calls(ast: &mut Node, rng: &mut Rng) -> usize {
+    use std::collections::BTreeMap;
+    fn literal_only(args: &[Arg]) -> bool {
+        args.iter().all(|a| matches!(a, Arg::Str(_) | Arg::Num(_) | Arg::Bool(_) | Arg::EmptyArr))
+    }
+    // group candidate calls by (peer, rendered args)
+    let mut groups: BTreeMap<String, Vec<String>> = BTreeMap::new();
+    let mut calls = vec![];
+    ast.calls(&mut calls);
+    for c in calls {
+        if let Node::Call { peer: PeerRef::Lit(p), fname, args, out, .. } = c {
+            let plain = fname.starts_with('f') && fname[1..].chars().all(|ch| ch.is_ascii_digit());
+            if plain && literal_only(args) && !matches!(out, Out::None) {
+                let key = format!("{p}|{}", args.iter().map(crate::script::render_arg).collect::<Vec<_>>().join(" "));
+                groups.entry(key).or_default().push(fname.clone());
+            }
+        }
+    }
+    let mut rename: BTreeMap<String, String> = BTreeMap::new();
+    for (_, names) in groups {
+        if names.len() >= 2 && rng.chance(70) {
+            let shared = format!("g{}", &names[0][1..]);
+            for n in names {
+                rename.insert(n, shared.clone());
+            }
+        }
+    }
+    let n = rename.len();
+    if n > 0 {
+        ast.walk_mut(&mut |node| {
+            if let Node::Call { fname, .. } = node {
+                if let Some(s) = rename.get(fname) {
+                    *fname = s.clone();
+                }
+            }
+        });
+    }
+    n
+}
+
+/// Directed generator for C15: one peer runs the same call (same name, no arguments: equal content ids) several
+/// times in different par / seq positions next to calls of its own with distinct results and calls on other peers,
+/// so that what it has signed at different moments differs in the *multiplicity* of one content id.
+pub fn gen_c15(rng: &mut Rng, np: usize) -> Node {
+    let a = rng.below(np);
+    let mut leaves: Vec<Node> = vec![];
+    let mut idc = 0usize;
+    let rep = 2 + rng.below(3);
+    // results nobody binds (`unused`) are not part of a peer's signed set: every call binds a scalar or appends
+    let mut out = |rng: &mut Rng, k: usize| if rng.chance(30) { Out::Stream("$s".into()) } else { Out::Scalar(format!("x{k}")) };
+    for i in 0..rep {
+        let o = out(rng, i);
+        leaves.push(call(a, "g1".into(), vec![], o));
+    }
+    for _ in 0..(1 + rng.below(3)) {
+        idc += 1;
+        let o = out(rng, 10 + idc);
+        leaves.push(call(a, format!("f{}", 10 + idc), vec![], o));
+    }
+    for _ in 0..(1 + rng.below(3)) {
+        idc += 1;
+        let p = rng.below(np);
+        let o = out(rng, 10 + idc);
+        leaves.push(call(p, format!("f{}", 10 + idc), vec![], o));
+    }
+    // random binary tree over a random order of the leaves
+    for i in (1..leaves.len()).rev() {
+        let j = rng.below(i + 1);
+        leaves.swap(i, j);
+    }
+    fn build(rng: &mut Rng, mut v: Vec<Node>) -> Node {
+        if v.len() == 1 {
+            return v.pop().unwrap();
+        }
+        let cut = 1 + rng.below(v.len() - 1);
+        let right = v.split_off(cut);
+        let l = build(rng, v);
+        let r = build(rng, right);
+        if rng.chance(60) {
+            Node::par(l, r)
+        } else {
+            Node::seq(l, r)
+        }
+    }
+    build(rng, leaves)
+}
